@@ -50,7 +50,13 @@ impl Node {
             index,
             hash,
             length,
-            parent: flat_tree::parent(index),
+            // The parent of a node at depth 62 or above does not fit into 64 bits (such an
+            // index can only come from a peer, e.g. u64::MAX): do not overflow on it.
+            parent: if flat_tree::depth(index) >= 62 {
+                u64::MAX
+            } else {
+                flat_tree::parent(index)
+            },
             data: Some(Vec::with_capacity(0)),
             blank,
         }
